@@ -20,5 +20,5 @@ package takewhile
 //@ o-ensures: [maximal] len(r) < len(list) ==> !predicate(list[len(r)])
 //@ o-ensures: [in-order] traceLen() <= len(list) && forall j int :: 0 <= j && j < traceLen() ==> called(j, predicate, list[j])
 //@ o-ensures: [no-call-after-stop] (len(r) < len(list) ==> traceLen() == len(r) + 1) && (len(r) == len(list) ==> traceLen() == len(r))
-//@ o-loop: 1: invariant len(out) == $i && traceLen() == $i
-//@ o-loop: 1: invariant forall j int :: 0 <= j && j < $i ==> out[j] == list[j] && predicate(list[j]) && called(j, predicate, list[j])
+//@ o-loop: 1: invariant len($out0) == $i && traceLen() == $i
+//@ o-loop: 1: invariant forall j int :: 0 <= j && j < $i ==> $out0[j] == list[j] && predicate(list[j]) && called(j, predicate, list[j])
